@@ -125,6 +125,26 @@ def run(rep):
         rst = stmt_of(app, rc)
         cs = dv.conds(rst)
         npc = [c for c in walk_body(f.node) if isinstance(c, ast.Call) and call_name(c) == 'normalize_path']
+        more_canon = []          # further locals holding normalize_path(request path, ..), computed again
+        if len(npc) > 1:
+            # the canonical form is a function of the (decoded) request path -- the text the pattern was matched against and
+            # the canonicity decision is taken on.  Canonicalising any other text (the raw request target, a quoted or
+            # re-cased path) gives a "canonical path" that need not be the canonical form of the request path.
+            on_req = [c for c in npc if argn(c, 'path', 0) is not None and dv.is_request_attr(argn(c, 'path', 0), 'path')]
+            for c in npc:
+                if c not in on_req:
+                    rep.fail('R07.a', fkey(f, 'canonical form of ' + norm(argn(c, 'path', 0) or c)[:40]),
+                             'dispatch canonicalises %s, which is not the decoded request path the canonicity test is taken on: what it '
+                             'yields need not be the canonical form of the requested path (the Location can name a path that is itself '
+                             'redirected again)' % short(argn(c, 'path', 0) or c), app, c)
+            if not on_req or len(set(norm(c) for c in on_req)) != 1:
+                raise AnalysisError('dispatch: expected exactly one normalize_path(request path, ..) call, found %d' % len(on_req))
+            for c in on_req[1:]:
+                st_ = stmt_of(app, c)
+                if not (isinstance(st_, ast.Assign) and st_.value is c and len(st_.targets) == 1 and isinstance(st_.targets[0], ast.Name)):
+                    raise AnalysisError('dispatch: a repeated normalize_path(...) is not bound to a local')
+                more_canon.append(st_.targets[0].id)
+            npc = on_req[:1]
         if len(npc) != 1:
             raise AnalysisError('dispatch: expected exactly one normalize_path(...) call, found %d' % len(npc))
         npc = npc[0]
@@ -384,6 +404,8 @@ def run(rep):
         # (the local bound to normalize_path(..) itself holds decoded text; when the call is wrapped at its binding, the local holds
         # whatever the wrapper returns: it is expanded like any other named temporary and judged as an expression)
         taint_roots, tainted_names = ({npv}, {npv}) if not np_wrappers else (set(), set())
+        taint_roots |= set(more_canon)
+        tainted_names |= set(more_canon)
         from ..astutil import assigned_value
         all_locals = set(n.id for n in walk_body(f.node) if isinstance(n, ast.Name) and isinstance(n.ctx, ast.Store))
         for name in all_locals:
